@@ -144,6 +144,13 @@ def c13(tier, seed):
     secs = 7 if tier == "quick" else 240
     batches = [Batch("nofault", exe, "C13", "nofault", seed, 10**8, secs, W, samples=True, start=0).run(),
                Batch("fault", exe, "C13", "fault", seed, 10**8, secs, W, samples=True, start=0).run()]
+    # the other two copies of eav.c are part of C13's anchors: same histories on the adapter builds
+    osecs = 3 if tier == "quick" else 90
+    for bk in ("idn", "idnkit"):
+        exe_b, _ = build.build_hist(bk)
+        batches.append(Batch(bk + "-nofault", exe_b, "C13", "nofault", seed + 2, 10**8, osecs, W).run())
+        batches.append(Batch(bk + "-fault", exe_b, "C13", "fault", seed + 2, 10**8, osecs, W).run())
+    build_info["other_backends"] = REAL_STUB["idn"] + REAL_STUB["idnkit"]
     if tier == "thorough":
         exe2, _ = build.build_hist("idn2", extra=True)
         build_info["extra_variant"] = "-DEAV_EXTRA build also run (lpart/domain strings compared and ledgered)"
@@ -229,7 +236,13 @@ def lockstep_triage(prop, exes, plan, info, budget=200):
     if not (differs(small) and differs(small)):
         return "nondeterministic", "lock-step difference does not replay"
     res = {bk: exec_plans(exes[bk], [small], log=True) for bk in exes}
-    detail = "; ".join("%s: %s" % (bk, (r["cls"] or (r["logs"][-3] if len(r["logs"]) >= 3 else ""))) for bk, r in res.items())
+    # first backend-neutral record on which the three builds differ
+    n = min(len(r["nlogs"]) for r in res.values())
+    k = next((i for i in range(n) if len(set(r["nlogs"][i] for r in res.values())) > 1), None)
+    if k is not None:
+        detail = "first differing operation record #%d: " % k + "; ".join("%s: {%s}" % (bk, r["nlogs"][k]) for bk, r in res.items())
+    else:
+        detail = "; ".join("%s: %s records, class %s" % (bk, len(r["nlogs"]), r["cls"]) for bk, r in res.items())
     info = dict(info); info["shrink_tests"] = tests; info["ops_before"] = len(plan["ops"]); info["ops_after"] = len(ops)
     replay = {"property": prop, "engine": "hist-sim", "lockstep": True, "violation_class": "C18:backends-disagree",
               "detail": detail, "plans": [small], "found": info,
